@@ -70,6 +70,7 @@ def run(chk):
     for o in sorted(owned_used):
         chk.assume("modifies clause (assumed, not proved): " + o)
     wrapmeta_and_pytree(chk)
+    composites_leave_parts(chk)
     construction_orders(chk)
     registry_history(chk)
 
@@ -115,6 +116,56 @@ def snapshot(op):
         else:
             out[k] = ("val", repr(v)[:200])
     return out
+
+
+def composites_leave_parts(chk, prop="C18"):
+    """(b') building a composite (its constructor runs the annotation inference rule of its kind) leaves every part untouched: same fields, same
+    annotations, for every combination of declarations on the parts (the rules depend only on the kinds and the annotation sets, so this domain is complete
+    for 2 and 3 parts)."""
+    import itertools
+    import cola
+    from cola.ops import Dense, Kronecker, BlockDiag, Sum, Product, ScalarMul, Transpose, Adjoint, Sliced
+    t0 = time.time()
+    rng = np.random.default_rng(5)
+    combos = [(), (cola.PSD,), (cola.SelfAdjoint,), (cola.Unitary,), (cola.Stiefel,), (cola.PSD, cola.Unitary)]
+
+    def part(anns):
+        op = Dense(rng.standard_normal((2, 2)))
+        for a in anns:
+            op = a(op)
+        return op
+    builders = [("Kronecker", lambda ps: Kronecker(*ps)), ("BlockDiag", lambda ps: BlockDiag(*ps)), ("Sum", lambda ps: Sum(*ps)), ("Product", lambda ps: Product(*ps)),
+                ("kron", lambda ps: cola.kron(*ps[:2])), ("block_diag", lambda ps: cola.block_diag(*ps)), ("A @ B", lambda ps: ps[0] @ ps[1]), ("A + B", lambda ps: ps[0] + ps[1]),
+                ("c * A", lambda ps: 2.0 * ps[0]), ("Product(ScalarMul, A)", lambda ps: Product(ScalarMul(2.0, (2, 2), np.float64), ps[0])),
+                ("Transpose", lambda ps: Transpose(ps[0])), ("Adjoint", lambda ps: Adjoint(ps[0])), ("A.T @ A", lambda ps: Transpose(ps[0]) @ ps[0]),
+                ("Sliced", lambda ps: Sliced(ps[0], (slice(0, 2), slice(0, 2)))), ("A[0:1, 0:2]", lambda ps: ps[0][0:1, 0:2])]
+    bad, n = [], 0
+    for arity in (2, 3):
+        for cs in itertools.product(combos, repeat=arity):
+            for name, build in builders:
+                if arity == 3 and name not in ("Kronecker", "BlockDiag", "Sum", "Product", "block_diag"):
+                    continue
+                ps = [part(c) for c in cs]
+                before = [snapshot(p) for p in ps]
+                n += 1
+                try:
+                    build(ps)
+                except Exception as e:
+                    bad.append(f"{name} of parts declared {[tuple(a.__name__ for a in c) for c in cs]} raises {type(e).__name__}: {str(e)[:100]}")
+                    continue
+                for j, (p, b) in enumerate(zip(ps, before)):
+                    if snapshot(p) != b:
+                        bad.append(f"{name} of parts declared {[tuple(a.__name__ for a in c) for c in cs]}: part {j} now reports {sorted(a.__name__ for a in p.annotations)}"
+                                   f" (declared {[a.__name__ for a in cs[j]]})")
+    clause = "constructing a composite leaves the fields and annotations of its parts unchanged"
+    ob = Ob(key=f"{prop}/composite constructors and their annotation rules/parts untouched for every combination of declarations (2 and 3 parts)", fn="cola.annotations.get_annotations",
+            clause=clause, engine="FRAME", status=DISCHARGED if not bad else FAILED, backend="real constructors on operators with every combination of declarations (finite enumeration)",
+            secs=time.time() - t0, detail=f"{n} cases" if not bad else f"{len(bad)} failures; first: {bad[0]}"[:400])
+    ob.smt = "forall kinds, forall declarations on the parts: parts' = parts"
+    if bad:
+        ob.witness = dict(engine="direct", failing_input_found=True, observed=bad[0], expected=clause, input=bad[0])
+    chk.add(ob)
+    chk.under_contract("cola.annotations.intersect_annotations")
 
 
 def construction_orders(chk):
